@@ -135,13 +135,13 @@ Proof.
   set (body := flat_map (fenc vs) l).
   assert (Hincl : incl l fs) by (intros x Hx; eapply Permutation_in; eauto).
   pose proof (fields_loop fs Hnd l vs cur [] 0 (S (length body)) Hincl) as HL.
-  rewrite !app_nil_r in HL. fold body in HL. rewrite HL.
+  rewrite !app_nil_r in HL. fold body in HL. unfold stbl in HL. rewrite HL.
   - cbn [struct_loop bind]. rewrite N.add_0_l.
     rewrite (fold_fmerge_perm vs l fs cur Hp Hns).
     match goal with |- Ok (VStruct (fold_left ?F fs cur), _) = Ok (VStruct (fold_left ?G fs cur), _) => change G with F end.
     reflexivity.
   - rewrite Forall_forall in *. intros f Hin. destruct (Hfs f (Hincl f Hin)) as (A & B & _).
-    split; [exact A|]. split; [exact B|]. apply roundtrip. exact A.
+    split; [exact B|]. apply (proj2 (roundtrip_gen _ A)).
   - rewrite Forall_forall in *. intros f Hin. split; [apply Hwfs|apply Hfits]; apply Hincl; exact Hin.
   - lia.
 Qed.
